@@ -429,17 +429,20 @@ package gtab
 //@ func readFeatureList(p *parser.Parser, pos int64) (info FeatureListInfo, err error)   props: C02 C08 C18
 //@   requires parser.inv(p) && pos >= 0 && pos <= 4611686018427387904
 //@   ensures faults(p.r) > old(faults(p.r)) ==> err != nil
+//@   ensures err == nil ==> parser.inv(p)
+//@   ensures p.r == old(p.r)
+//@   modifies p.*, allelems(byte), rpos(p.r), faults(p.r)
 //@   ensures err == nil ==> forall i int :: 0 <= i && i < len(info) ==> info[i] != nil
 //@   loop 0
-//@     invariant parser.inv(p) && 0 <= i && i <= featureCount && len(featureList) == i && (isnil(featureList) || fresh(featureList)) && faults(p.r) <= old(faults(p.r)) && pos >= 0 && pos <= 4611686018427387904
+//@     invariant p.r == old(p.r) && parser.inv(p) && 0 <= i && i <= featureCount && len(featureList) == i && (isnil(featureList) || fresh(featureList)) && faults(p.r) <= old(faults(p.r)) && pos >= 0 && pos <= 4611686018427387904
 //@     invariant forall k int :: 0 <= k && k < len(featureList) ==> featureList[k] != nil
 //@     decreases featureCount - i
 //@   loop 1
-//@     invariant parser.inv(p) && (isnil(info) || fresh(info)) && faults(p.r) <= old(faults(p.r)) && pos >= 0 && pos <= 4611686018427387904 && totalSize >= 0
+//@     invariant p.r == old(p.r) && parser.inv(p) && (isnil(info) || fresh(info)) && faults(p.r) <= old(faults(p.r)) && pos >= 0 && pos <= 4611686018427387904 && totalSize >= 0
 //@     invariant forall k int :: 0 <= k && k < len(featureList) ==> featureList[k] != nil
 //@     invariant forall k int :: 0 <= k && k < len(info) ==> info[k] != nil
 //@   loop 2
-//@     invariant parser.inv(p) && 0 <= i && i <= featureLookupCount && (isnil(lookupListIndices) || fresh(lookupListIndices)) && faults(p.r) <= old(faults(p.r))
+//@     invariant p.r == old(p.r) && parser.inv(p) && 0 <= i && i <= featureLookupCount && (isnil(lookupListIndices) || fresh(lookupListIndices)) && faults(p.r) <= old(faults(p.r))
 //@     invariant forall k int :: 0 <= k && k < len(info) ==> info[k] != nil
 //@     decreases featureLookupCount - i
 
@@ -1372,3 +1375,19 @@ package gtab
 //@   ensures err == nil ==> parser.inv(p) && s != nil && (is(s, *extensionSubtable) ==> s.(*extensionSubtable) != nil)
 //@   ensures p.r == old(p.r) && faults(p.r) >= old(faults(p.r)) && (faults(p.r) > old(faults(p.r)) ==> err != nil)
 //@   modifies p.*, allelems(byte), rpos(p.r), faults(p.r)
+
+// readGtab / Read: the GSUB/GPOS header and the three lists; total on
+// arbitrary bytes for every behaviour of the subtable readers (functype
+// subtableReader), reader faults are returned.  The header goes through
+// binary.Read with the Parser as reader (assumed model parser.binaryReadModel).
+//@ func readGtab(r parser.ReadSeekSizer, tp Type, sr subtableReader) (info *Info, err error)   props: C02 C18
+//@   requires r != nil && sr != nil && rpos(r) == 0 && fsize(r) >= 0 && fsize(r) <= 1099511627776
+//@   ensures err == nil ==> info != nil
+//@   ensures faults(r) > old(faults(r)) ==> err != nil
+//@   loop 0
+//@     invariant parser.inv(p) && p.r == r && fresh(p) && faults(r) == old(faults(r)) && fileSize == fsize(r) && 10 <= endOfHeader && endOfHeader <= 14
+
+//@ func Read(r parser.ReadSeekSizer, tp Type) (info *Info, err error)   props: C02 C18
+//@   requires r != nil && rpos(r) == 0 && fsize(r) >= 0 && fsize(r) <= 1099511627776
+//@   ensures err == nil ==> info != nil
+//@   ensures faults(r) > old(faults(r)) ==> err != nil
